@@ -287,3 +287,14 @@ Proof.
   destruct (through head1 (acc_of o) (fl_of o) s1 e2) as [s1' es]. cbn [snd] in T.
   cbn [concat]. rewrite !filter_app, T, IH. reflexivity.
 Qed.
+
+(* when the lower writer serves a HEAD request no body byte reaches the spy, whatever the upper writer is given *)
+Theorem stack_head_no_body head2 pre ops bs n :
+  forallb valid_op pre = true -> forallb valid_op ops = true ->
+  ~ In (UWrite bs n) (spy_trace true head2 pre ops).
+Proof.
+  intros Vp Vo H. rewrite spy_trace_is_w1_run in H. apply filter_In in H as [H _].
+  assert (S : spec_ok true (pre ++ lower_ops true head2 init ops) (run true (pre ++ lower_ops true head2 init ops)) = true).
+  { apply run_meets_spec. rewrite forallb_app, Vp, lower_ops_valid by exact Vo. reflexivity. }
+  exact (spec_head_no_body _ _ jinit S bs n H).
+Qed.
